@@ -38,7 +38,7 @@ tvars == <<i, written, flen, skipping>>
 TInit == /\ InitFor("write", <<"unfmt">>, "0644")
          /\ i = 1 /\ written = 0 /\ flen = 0 /\ skipping = FALSE
 
-Reset(e) == /\ op' = e.op /\ files' = e.kinds /\ cur' = 1 /\ omode' = e.mode
+Reset(e) == /\ variant' = "intended" /\ op' = e.op /\ files' = e.kinds /\ cur' = 1 /\ omode' = e.mode
             /\ target' = Target0(e.mode) /\ temp' = NoTemp /\ srcopen' = FALSE
             /\ pc' = "start" /\ fault' = NoFault /\ exit' = "none"
             /\ written' = 0 /\ flen' = e.n
